@@ -117,12 +117,14 @@ def run_check(pid, tier, repo, seed, opts):
         cans = spec.get('canaries', [])
         if tier == 'quick':
             cans = cans[:2]
-        for (rel, old, new, note) in cans:
+        for can in cans:
+            rel, old, new, note = can[:4]
+            ufilter = can[4] if len(can) > 4 else None
             src = open(os.path.join(repo, rel), encoding='utf-8').read()
             if src.count(old) != 1:
                 canary_res.append({'canary': note, 'result': 'not-applicable (anchor text not found once)'})
                 continue
-            _, cres = check.run_property(pid, 'quick', repo, seed, overrides={rel: src.replace(old, new)})
+            _, cres = check.run_property(pid, 'quick', repo, seed, overrides={rel: src.replace(old, new)}, unit_filter=ufilter)
             bad = [o for r in cres for o in r['obligations'] if o['status'] != 'unsat']
             und = [u for r in cres for u in r['undecided']] + [r['error'] for r in cres if r['error']]
             killed = bool(bad)
